@@ -212,6 +212,18 @@ class PPRule:
         return ir
 
 
+_re_not_a_macro = (
+    r'(?P<pp>^\s*#.*)|'                                       # CPP directive line
+    r'(?P<string>\'(?:[^\']|\'\')*\'|"(?:[^"]|"")*")|'          # Character literal ('' and "" are quotes inside it)
+    r'(?P<comment>!.*)'                                        # Comment
+)
+"""
+Pattern for the parts of a source line in which the name of a CPP macro is
+ordinary text. Used as the leading alternatives of a rule, these parts are
+consumed and left as they are.
+"""
+
+
 sanitize_registry = {
     REGEX: {
         # Strip line annotations from Fypp preprocessor
@@ -224,15 +236,16 @@ sanitize_registry = {
 
         # Enquote string CPP directives in Fortran source lines to make them string constants
         # Note: this is a bit tricky as we need to make sure that we don't replace it inside CPP
-        #       directives as this can produce invalid code
+        #       directives as this can produce invalid code, and neither inside character literals,
+        #       comments or longer names, where it is not a macro but ordinary text
         'STRING_PP_DIRECTIVES': PPRule(
-            match=re.compile((
-                r'(?P<pp>^\s*#.*__(?:FILE|FILENAME|DATE|VERSION)__)|'  # Match inside a directive
-                r'(?P<else>__(?:FILE|FILENAME|DATE|VERSION)__)')),     # Match elsewhere
-            replace=lambda m: m['pp'] or f'"{m["else"]}"'),
+            match=re.compile(_re_not_a_macro + r'|(?P<else>\b__(?:FILE|FILENAME|DATE|VERSION)__\b)'),
+            replace=lambda m: f'"{m["else"]}"' if m['else'] else m[0]),
 
         # Replace integer CPP directives by 0
-        'INTEGER_PP_DIRECTIVES': PPRule(match='__LINE__', replace='0'),
+        'INTEGER_PP_DIRECTIVES': PPRule(
+            match=re.compile(_re_not_a_macro + r'|(?P<else>\b__LINE__\b)'),
+            replace=lambda m: '0' if m['else'] else m[0]),
 
         # Replace CONVERT argument in OPEN calls
         'CONVERT_ENDIAN': PPRule(
